@@ -16,14 +16,14 @@ CLAIM = dict(
          "fault) pair: argv/envp vectors NULL-terminated, the return point is passed only by the caller and at most once, "
          "Ok implies that no step up to exec failed and the child exec'ed exactly the configured program/argv/env/cwd/"
          "stdio/ids, Err implies a failed step and carries its positive errno, the child never gets back into the caller's "
-         "code, wait reports the child's status, nobody blocks forever (deadlock freedom). Quick: 64 stdio tables on a base "
-         "command + 384 configurations of the other dimensions x 31 fault plans (~236k states per `start` variant); the "
+         "code, wait reports the child's status, nobody blocks forever (deadlock freedom). Quick: all 64 stdio tables on a base "
+         "command and on a command using every other setting + 720 configurations of the other dimensions (args, env, cwd, own/foreign uid/gid, pgroup, closures, program present/missing) x 31 fault plans (~470k states per `start` variant); the "
          "three deviations of the pinned tree (child-side `?`, negative execve errno, inverted env test) are re-exhibited "
          "by TLC on every run as an anti-vacuity test. Real code: every fault-free configuration and 3 (thorough 24) "
          "configurations per (fault, predicted outcome) class are executed in four builds - std-linked with `start`, "
          "std-linked without `start`, no-libc executable started by tiny-std's own _start (real Environment::Inherit), "
-         "no-libc no-alloc executable using the free function process::spawn::<N> - quick ~3800 runs, thorough ~45000, "
-         "with the failure injected by ptrace in the caller or in the forked child; 1 run in 10 waits with a "
+         "no-libc no-alloc executable using the free function process::spawn::<N> - quick ~5500 runs, thorough ~50000, "
+         "with the failure injected by ptrace in the caller or in the forked child and the caller/child interleaving forced to free / caller-first / child-first in a third of the runs each; 1 run in 10 waits with a "
          "Child::try_wait loop, helpers end by exit 0/3/7 or SIGKILL/SIGTERM; each trace is accepted or rejected by TLC at the property level and "
          "its per-process call sequence / result is compared with the model's prediction.",
     note="Trusted: TLC, SpawnAbs.tla, the tracer's view of the process tree (ptrace stops; per-task order is causal, "
@@ -33,6 +33,6 @@ CLAIM = dict(
          "the exact one is checked in the no-libc builds. Readings fixed in SpawnAbs.tla: an error of a parent-side "
          "step after the fork (sync-pipe read, wait4) need not carry an errno; a child that has reported its error and "
          "is about to exit is not 'running the caller's code' (reaping is not demanded). Not reached: "
-         "setuid/setgid/setpgid to foreign ids (root sandbox: own ids, failures injected), signals during spawn, "
+         "running as a non-root caller (uid/gid settings: own ids and nobody/nogroup as root; refusals injected), signals during spawn, "
          "two simultaneous failures, aarch64. Descriptor leaks of do_spawn belong to C12.",
 )
